@@ -8,8 +8,8 @@ CONSTANTS Kind = "channel"
           Slot = 0
           SidOff = 0
           AsImplemented = FALSE
-          Frag = 0
-          LibSource = TRUE
+          Frag = 10
+          LibSource = FALSE
 INVARIANT NoClauseFails
 INVARIANT DeliveredIsPrefixOfHanded
 INVARIANT FutureOnce
